@@ -207,7 +207,12 @@ type Env struct {
 	// NoWSize suppresses the Size() probes after writer operations (they are not atomic
 	// with the operation, so under concurrency they would describe another instant).
 	NoWSize bool
-	mu      sync.Mutex
+	// Reiterate makes Exec consume every listing sequence a second time (the same Seq value) and
+	// compare: an iterator value is a function and may be ranged over again. A second pass that
+	// differs from the first adds the marker item REITERATION-DIFFERS. Only for registries whose
+	// answers do not depend on how often they were asked (no call-counting fault injection).
+	Reiterate bool
+	mu        sync.Mutex
 }
 
 func NewEnv(reg ociregistry.Interface) *Env {
@@ -275,6 +280,18 @@ func listOutcome[T any](seq ociregistry.Seq[T], stopAfter, maxItems int, str fun
 		}
 		return true
 	})
+	return out
+}
+
+func listTwice[T any](e *Env, seq ociregistry.Seq[T], stopAfter, maxItems int, str func(T) string) *Outcome {
+	out := listOutcome(seq, stopAfter, maxItems, str)
+	if !e.Reiterate || seq == nil {
+		return out
+	}
+	again := listOutcome(seq, stopAfter, maxItems, str)
+	if again.OK != out.OK || again.Code != out.Code || strings.Join(again.Items, "\x00") != strings.Join(out.Items, "\x00") {
+		out.Items = append(out.Items, fmt.Sprintf("REITERATION-DIFFERS: second pass over the same sequence gave ok=%v code=%q items=%q", again.OK, again.Code, again.Items))
+	}
 	return out
 }
 
@@ -446,11 +463,11 @@ func (e *Env) Exec(op *Op) *Outcome {
 		}
 		return &Outcome{OK: true}
 	case "Repositories":
-		return listOutcome(r.Repositories(ctx, op.StartAfter), op.StopAfter, op.MaxItems, func(s string) string { return s })
+		return listTwice(e, r.Repositories(ctx, op.StartAfter), op.StopAfter, op.MaxItems, func(s string) string { return s })
 	case "Tags":
-		return listOutcome(r.Tags(ctx, op.Repo, op.StartAfter), op.StopAfter, op.MaxItems, func(s string) string { return s })
+		return listTwice(e, r.Tags(ctx, op.Repo, op.StartAfter), op.StopAfter, op.MaxItems, func(s string) string { return s })
 	case "Referrers":
-		return listOutcome(r.Referrers(ctx, op.Repo, dig, ""), op.StopAfter, op.MaxItems, DescItem)
+		return listTwice(e, r.Referrers(ctx, op.Repo, dig, ""), op.StopAfter, op.MaxItems, DescItem)
 	}
 	return fail(fmt.Errorf("HARNESS: unknown op kind %q", op.Kind))
 }
